@@ -89,7 +89,9 @@ def verdict(rn, content, has_children, typed_verdict=None):
 def check_case(rn, content, word, v, label=""):
     case = {"rule": rn, "content": content, "word": list(word), "verdict": v, "label": label}
     res = build.outcome(rn, lambda: build.make_node(rn, word=word, content=content))
-    ff, cc = res
+    ff, cc = res[0], res[1]
+    if len(res) > 2 and res[2][1]:
+        raise Violation("collecting-depends-on-prior-list-content", "into a list that already holds an earlier error: " + res[2][1], case)
     if ff[0] == "EXC":
         raise Violation("failfast-other-exception:" + ff[1].split(":")[0], f"{ff[1]}", case)
     if cc[0] == "EXC":
